@@ -268,3 +268,100 @@ func TestVP_C11_views(t *testing.T) {
 		}
 	})
 }
+
+// TestVP_C11_views_after_reloads: a long-lived node follows the ledger record
+// by record (LoadConsensusNodes after every arrival, as reloadConsensusState
+// does), one record arriving late; its views must equal those of a node that
+// loads the complete ledger at once.
+func TestVP_C11_views_after_reloads(t *testing.T) {
+	c := kit.New(t, "C11", "rapid: G-membership histories as in TestVP_C11_views (equal and adjacent timestamps); one Node object starts with the genesis records and reloads (LoadConsensusNodes on a record store) after every further record arrives in timestamp order, one drawn record arriving last; oracle: after the last reload every view (lists, pledging node, thresholds, key vectors of an accepted and the pledging chain, elected operators) at 8 boundary-biased query times equals the view of a node that loaded the complete history at once; non-trivial = history with a timestamp tie among lifecycle records or a late record; distinct by (ops, late index, query time)")
+	c.Require("incremental-reloads", "late-record", "timestamp-tie")
+	kit.SetChecks(kit.N(300, 8000))
+	rapid.Check(t, func(rt *rapid.T) {
+		h := vpKMGenHist(rt, vpKMOpts{Epoch: vpKMEpochDefault, Network: vpKMNetwork("c11r"), MinGenesis: 7, MaxGenesis: 10, MaxOps: 10, AllowBelow7: true, ValidBias: 60, GenesisModes: []string{"equal", "mixed"}})
+		recs := h.Sorted()
+		var later []int
+		for i, r := range recs {
+			if !h.Genesis[r.IdForNetwork] || r.State != common.NodeStateAccepted || r.Timestamp > h.Epoch+uint64(1000) {
+				later = append(later, i)
+			}
+		}
+		if len(later) == 0 {
+			rt.Skip("genesis only")
+		}
+		late := -1
+		if rapid.Bool().Draw(rt, "with_late") {
+			late = later[rapid.IntRange(0, len(later)-1).Draw(rt, "late")]
+		}
+		isLater := map[int]bool{}
+		for _, i := range later {
+			isLater[i] = true
+		}
+		st := &vpKMStubStore{}
+		add := func(r *CNode) {
+			st.nodes = append(st.nodes, &common.Node{Signer: r.Signer, Payee: r.Payee, State: r.State, Transaction: r.Transaction, Timestamp: r.Timestamp})
+		}
+		for i, r := range recs {
+			if !isLater[i] {
+				add(r)
+			}
+		}
+		node := &Node{Epoch: h.Epoch, networkId: h.Network, genesisNodesMap: h.Genesis, persistStore: st}
+		if err := node.LoadConsensusNodes(); err != nil {
+			rt.Fatalf("load: %v", err)
+		}
+		tie := false
+		var prevTs uint64
+		for _, i := range later {
+			if i == late {
+				continue
+			}
+			if recs[i].Timestamp == prevTs {
+				tie = true
+			}
+			prevTs = recs[i].Timestamp
+			add(recs[i])
+			if err := node.LoadConsensusNodes(); err != nil {
+				rt.Fatalf("reload: %v", err)
+			}
+		}
+		if late >= 0 {
+			add(recs[late])
+			if err := node.LoadConsensusNodes(); err != nil {
+				rt.Fatalf("reload: %v", err)
+			}
+		}
+		full := vpKMLoadNode(h, recs)
+		var pledgingInfo *CNode
+		for _, r := range vpKMModelList(recs, ^uint64(0)) {
+			if r.State == common.NodeStatePledging {
+				pledgingInfo = r
+			}
+		}
+		classes := []string{"incremental-reloads"}
+		if late >= 0 {
+			classes = append(classes, "late-record")
+		}
+		if tie {
+			classes = append(classes, "timestamp-tie")
+		}
+		for qi := 0; qi < 8; qi++ {
+			q := vpKMDrawTime(rt, h, fmt.Sprintf("q%d", qi))
+			if q < h.Epoch {
+				continue
+			}
+			acc := full.NodesListWithoutState(q, true)
+			if len(acc) == 0 {
+				continue
+			}
+			id := acc[len(acc)/2].IdForNetwork
+			electable := len(acc) >= config.KernelMinimumNodesCount
+			a := vpC11View(node, q, id, pledgingInfo, electable)
+			b := vpC11View(full, q, id, pledgingInfo, electable)
+			if d := vpC11Diff(a, b); d != "" {
+				rt.Fatalf("a node that followed the ledger record by record (late record: %v) and a node that loaded it at once disagree at epoch+%d: %s\nops=%v", late >= 0, int64(q-h.Epoch), d, h.Ops)
+			}
+			c.Case(fmt.Sprintf("%v|%d|%d", h.Ops, late, q-h.Epoch), tie || late >= 0, classes...)
+		}
+	})
+}
